@@ -383,6 +383,30 @@ def run_special(res):
         if not got.ok or not same(got.val, exp):
             res.violation("C05/unmarshal/P2b-newtype-of-a-same-named-class-in-another-module/" + ("raises:" + got.excname if not got.ok else "differs"),
                           f"unmarshal({ename}, ...) -> {short(got.val if got.ok else got.exc, 240)}; expected {short(exp, 240)}", case)
+    # P8: members typed by a BOUND type variable (a generic user class): the bound is the member's type - a structured class, a
+    # parameterised container - and its members are converted by their own rules, in both directions
+    cold.clear_all()
+    import decimal as _dec
+
+    g = prelude.mkmod("tlg_c05_bound", "import dataclasses, decimal, typing\n@dataclasses.dataclass\nclass Unit:\n    amount: decimal.Decimal\n    n: int = 0\n"
+                               "TU = typing.TypeVar('TU', bound=Unit)\nTL = typing.TypeVar('TL', bound=typing.List[Unit])\nTT = typing.TypeVar('TT', bound=tuple[int, decimal.Decimal])\n"
+                               "@dataclasses.dataclass\nclass Box(typing.Generic[TU, TL, TT]):\n    one: TU = None\n    many: TL = None\n    pair: TT = None\n").__dict__
+    Unit, Box = g["Unit"], g["Box"]
+    wire = {"one": {"amount": "1.5", "n": "2"}, "many": [{"amount": "2.5", "n": "3"}], "pair": ["7", "0.5"]}
+    exp = Box(one=Unit(_dec.Decimal("1.5"), 2), many=[Unit(_dec.Decimal("2.5"), 3)], pair=(7, _dec.Decimal("0.5")))
+    got = call(typelib.unmarshal, Box, wire)
+    res.evals += 1
+    res.outcomes.add(h64("P8", "u", "ok" if got.ok else got.excname))
+    if not (got.ok and same(got.val, exp)):
+        res.violation("C05/unmarshal/P8-member-typed-by-a-bound-type-variable/" + ("raises:" + got.excname if not got.ok else "differs"),
+                      f"unmarshal(Box, {wire}) -> {short(got.val if got.ok else got.exc, 140)}; member-wise (each bound converted by its own routine): {short(exp, 140)}", {"kind": "special"})
+    m = call(typelib.marshal, exp, t=Box)
+    res.evals += 1
+    wexp = {"one": {"amount": "1.5", "n": 2}, "many": [{"amount": "2.5", "n": 3}], "pair": [7, "0.5"]}
+    res.outcomes.add(h64("P8", "m", "ok" if m.ok else m.excname))
+    if not (m.ok and same(m.val, wexp)):
+        res.violation("C05/marshal/P8-member-typed-by-a-bound-type-variable/" + ("raises:" + m.excname if not m.ok else "differs"),
+                      f"marshal({short(exp, 100)}, t=Box) -> {short(m.val if m.ok else m.exc, 140)}; member-wise: {wexp}", {"kind": "special"})
     res.samples.append({"special": "P2 same-named classes in two modules, P2b NewType/alias of the other module's class, P5 nested definitions"})
 
 
